@@ -563,9 +563,10 @@ class Loader:
             ctx.prove("pre:%s:%s" % (q, label), cond, kind="pre", props=con.props, role="aux")
         mod = self.modules[q.rsplit(".", 1)[0]] if q.rsplit(".", 1)[0] in self.modules else None
         for r in con.raises:
-            w = r.when(c, a)
+            w = (r.call_when or r.when)(c, a)
             if isinstance(w, (bool, _np.bool_)):
                 if w:
+                    ctx.ghost["raised:" + q] = r.label
                     raise self.exception_class(q, r.exc)("raised by contract %s:%s" % (q, r.label))
                 continue
             wt = _term(w)
@@ -578,6 +579,7 @@ class Loader:
                 ctx.prove("pre:%s:no_%s" % (q, r.label), snot(w), kind="pre", props=con.props, role="aux")
                 continue
             if bool(w):
+                ctx.ghost["raised:" + q] = r.label
                 raise self.exception_class(q, r.exc)("raised by contract %s:%s" % (q, r.label))
         old = con.snapshot(c, a) if hasattr(con, "snapshot") else None
         res = con.result(c, a)
